@@ -104,9 +104,10 @@ def programs(tier):
     out = []
     for pt, e, (si, s) in itertools.product(PTYPES, EXPRS, list(enumerate(S1))):
         out.append((pt, "def run(x: %s) -> object:\n    %s\n    return v\n" % (pt, s.format(e=e)), "%d" % si))
-    exprs2 = EXPRS_SMALL if tier == "quick" else EXPRS
+    # two-construct programs: quick = 14 types x 10 expressions x 12 x 15 templates; thorough = 18 types x 10 expressions x all 35 x 15 templates
+    exprs2 = EXPRS_SMALL
     s1_2 = S1[:12] if tier == "quick" else S1
-    pts = PTYPES[:14] if tier == "quick" else PTYPES
+    pts = PTYPES[:14] if tier == "quick" else PTYPES[:18]
     for pt, e, (si, s), (ti, t) in itertools.product(pts, exprs2, list(enumerate(s1_2)), list(enumerate(S2))):
         out.append((pt, "def run(x: %s) -> object:\n    %s\n    %s\n    return v\n" % (pt, s.format(e=e), t), "%d+%d" % (si, ti)))
     return out
